@@ -37,12 +37,15 @@ type Prog struct {
 	SSA    *ssa.Program
 	SSAPkg map[string]*ssa.Package
 
-	noReturn   map[*ssa.Function]bool
-	entryCache map[*ssa.Function]relSet
-	ipathCache map[*ssa.Function][]ipath
-	keepOpaque map[*ssa.Function]bool
-	exitCache  map[*ssa.Function]relSet
-	srcFuncs   []*ssa.Function // all functions (incl. anonymous) with source in repo packages
+	noReturn    map[*ssa.Function]bool
+	entryCache  map[*ssa.Function]relSet
+	ipathCache  map[*ssa.Function][]ipath
+	keepOpaque  map[*ssa.Function]bool
+	exitCache   map[*ssa.Function]relSet
+	srcFuncs    []*ssa.Function // all functions (incl. anonymous) with source in repo packages
+	recognisers map[*ssa.Function]bool
+	pkgNameSet  map[string]bool
+	condBusy    map[*ssa.Function]bool
 }
 
 // Load loads dir (the repository root) under cfg. Any load or type error is fatal:
